@@ -517,7 +517,7 @@ func runScripts(w *World, scripts [][]sendOp) *int {
 func runEncoding(rc *core.RunCtx) {
 	w := setup(rc)
 	g := simrt.G()
-	rc.PostRun = func(res *simrt.Result) { crashClause(rc, res, "C15", "C17") }
+	rc.PostRun = func(res *simrt.Result) { livelockClause(rc, res, "C15", "C17") }
 	targets := []string{"rec/r0", "rec/r1", "rec/r2"}[:g.Range(2, 3)]
 	if g.Bool(0.3) {
 		// long ids that share a long prefix (deep child hierarchies look like this)
@@ -535,7 +535,27 @@ func runEncoding(rc *core.RunCtx) {
 		maxOps = 24
 	}
 	// all senders on node 1 so that batches mix everything
+	if g.Bool(0.2) {
+		// node 2 is addressed by a name that differs from its engine's address
+		w.useAlias(2)
+		rc.Scen("node2 is addressed as %s", w.dest(2))
+	}
 	scripts := genOpsFrom(g, rc, 1, []int{2}, targets, 1+g.Pick(3, 3, 2), maxOps, true)
+	for t := range scripts {
+		for i := range scripts[t] {
+			if g.Bool(0.15) {
+				// the sender is itself a target of the batch: the message's own
+				// target, or one that other messages of the batch go to
+				s := &scripts[t][i]
+				tgt := targets[g.IntN(len(targets))]
+				if g.Bool(0.5) {
+					tgt = s.target
+				}
+				s.sender = actor.NewPID(w.dest(s.to), tgt)
+				rc.Scen("%s: sent with sender %s, which is also a target", s.key, pidStr(s.sender))
+			}
+		}
+	}
 	fin := runScripts(w, scripts)
 	simrt.WaitQuiet(30 * time.Second)
 	if *fin != len(scripts) {
